@@ -70,6 +70,17 @@ pub fn generate(a: &Args) {
         }
     }
     mcfgs.retain(|c| c.nrows > 0);
+    // over-subscribed configurations (ncols * wc > nrows * wr): every seed must FAIL; a matrix returned here has a row above wr
+    for &(nr, nc, wc) in &[(4usize, 9usize, 2usize), (3, 4, 2), (6, 12, 3), (5, 7, 2), (8, 12, 3)] {
+        let exact = (nc * wc + nr - 1) / nr;
+        if exact < 2 { continue; }
+        for uniform in [false, true] {
+            for &(bc, bt) in &[(0usize, 0usize), (2, 5)] {
+                mcfgs.push(MknConfig { nrows: nr, ncols: nc, wr: exact - 1, wc, backtrack_cols: bc, backtrack_trials: bt, min_girth: None, girth_trials: 0,
+                    fill_policy: if uniform { FillPolicy::Uniform } else { FillPolicy::Random } });
+            }
+        }
+    }
     for c in &mcfgs {
         let s0 = rng.next() % 1000;
         let mut digests = vec![];
